@@ -70,8 +70,97 @@ func TestC02(t *testing.T) {
 			continue
 		}
 		r.Progress(id, "")
+		if vf.Hash("c02-family", id)%25 == 0 {
+			c02IDSpace(r, t, id, r.Rand(id))
+			continue
+		}
 		c02Scenario(r, t, id, r.Rand(id))
 	}
+}
+
+// c02IDSpace: a connection near the end of its stream id space (the hook VerifSetNextStreamID stands in for the two
+// thousand million requests before it). The requests that still fit get fresh odd increasing ids up to 2^31-1 and are
+// answered; the ones that do not fit are failed and never reach the wire - no id above 2^31-1, none reused, none even.
+func c02IDSpace(r *vf.Run, t *testing.T, id string, rng *rand.Rand) {
+	fit := rng.Intn(4)
+	k := fit + 1 + rng.Intn(3)
+	replay := map[string]any{"family": "stream-id-space", "requests": k, "ids_left": fit}
+	failed := false
+	fail := func(rule, detail string) {
+		if !failed {
+			r.Fail("C02."+rule, id, detail, nil, replay)
+		}
+		failed = true
+	}
+	res := rt.RunBubble(t, id, 60*time.Second, func() {
+		e := rt.NewClientEnv(id, rt.ClientOpts{PeerSettings: []wire.Setting{{ID: 4, Val: 1 << 20}}})
+		if e.HandshakeErr != nil {
+			fail("handshake", e.HandshakeErr.Error())
+			return
+		}
+		first := uint32(1<<31-1) - 2*uint32(fit) + 2 // fit == 0: already past the last id
+		e.C.VerifSetNextStreamID(first)
+		reqs := make([]*cliReq, k)
+		calls := make([]*rt.Call, k)
+		for i := range reqs {
+			reqs[i] = genCliReq(rng, id, i, 2000, 2000)
+			reqs[i].SplitSeed, reqs[i].TrailSplit = nil, nil
+			calls[i] = e.Do(reqs[i].Tag, reqs[i].build)
+			rt.Wait()
+		}
+		seen := e.RequestsSeen()
+		var last uint32
+		for _, s := range seen {
+			if s.Stream%2 == 0 || s.Stream > 1<<31-1 || s.Stream <= last || s.Stream < first {
+				fail("stream-id", fmt.Sprintf("request arrived on stream %d (previous %d, first id of this connection %d): ids are odd, strictly increasing and at most 2^31-1", s.Stream, last, first))
+			}
+			last = s.Stream
+		}
+		if len(seen) != fit {
+			fail("stream-id", fmt.Sprintf("%d stream ids were left (from %d), %d requests were made, %d reached the server", fit, first, k, len(seen)))
+		}
+		for _, s := range seen {
+			tag, _ := s.Get("x-vtag")
+			for _, q := range reqs {
+				if q.Tag == tag {
+					if d := q.checkArrived(s); d != "" {
+						fail("request-mismatch", fmt.Sprintf("request %s (stream %d): %s", tag, s.Stream, d))
+					}
+					out := q.respHeaderBytes(e.P, s.Stream)
+					for _, f := range q.respData(s.Stream) {
+						out = append(out, f...)
+					}
+					if len(q.RespTrail) > 0 {
+						out = append(out, q.respTrailerBytes(e.P, s.Stream)...)
+					}
+					e.P.Write(out)
+				}
+			}
+		}
+		rt.Wait()
+		for i, q := range reqs {
+			done, err, _ := calls[i].Outcome()
+			arrived := false
+			for _, s := range seen {
+				tag, _ := s.Get("x-vtag")
+				arrived = arrived || tag == q.Tag
+			}
+			switch {
+			case arrived:
+				if d := q.checkDelivered(calls[i]); d != "" {
+					fail("response-mismatch", fmt.Sprintf("caller of %s: %s", q.Tag, d))
+				}
+			case !done:
+				fail("request-stranded", fmt.Sprintf("request %s found no stream id left and is neither sent nor failed", q.Tag))
+			case err == nil:
+				fail("response-mismatch", fmt.Sprintf("request %s never reached the server (no stream id left) and its caller was told it succeeded", q.Tag))
+			}
+		}
+		r.Inc("requests_at_the_end_of_the_id_space", int64(k))
+		e.Finish()
+	})
+	c01Outcome(r, id, res, nil, replay, "C02")
+	r.Eval(vf.Hash("idspace", fit, k), true)
 }
 
 func c02Scenario(r *vf.Run, t *testing.T, id string, rng *rand.Rand) {
